@@ -29,6 +29,9 @@ func init() {
 	runner.Register("C07", runner.Scenario{Name: "live-sql-stall", Options: func(string) simrt.Options {
 		return simrt.Options{MaxSteps: 200000, RotateMaps: true, StallPermille: 30, StallMax: 20 * time.Millisecond}
 	}, Body: liveBody})
+	runner.Register("C07", runner.Scenario{Name: "live-sql-preempt", Options: func(string) simrt.Options {
+		return simrt.Options{MaxSteps: 200000, RotateMaps: true, ParkPermille: 8}
+	}, Body: liveBody})
 }
 
 type quietLogger struct{ errors *int }
@@ -298,6 +301,7 @@ func liveBody(c *runner.Ctx) {
 		}
 	}
 	var desc []string
+	countsSeen := map[int]bool{}
 	for k := 0; k < nWrites; k++ {
 		switch c.Choose(3, "write-pause") {
 		case 1:
@@ -305,14 +309,19 @@ func liveBody(c *runner.Ctx) {
 		case 2:
 			simrt.Yield()
 		}
-		if faulty && c.Biased(3, 700, "schema-change") > 0 {
+		// livesql documents that it cannot tell two layouts with the same number
+		// of columns apart when an event of the older one is still in flight
+		// ("we might return garbage data and miss invalidations"). ADD and DROP
+		// are therefore only combined so that no column count comes back.
+		countsSeen[len(tbl.columns)] = true
+		if faulty && c.Biased(3, 700, "schema-change") > 0 && !countsSeen[len(tbl.columns)+1] {
 			// ALTER TABLE: a new column, a new table id for later events. Events
 			// still in flight carry the old number of columns.
 			c.Fault("schema-change")
 			tbl.columns = append(tbl.columns, fmt.Sprintf("extra%d", len(tbl.columns)))
 			tableID++
 			desc = append(desc, "ALTER")
-		} else if legacyAt := indexOf(tbl.columns, "legacy"); faulty && legacyAt >= 0 && c.Biased(3, 800, "schema-drop-column") > 0 {
+		} else if legacyAt := indexOf(tbl.columns, "legacy"); faulty && legacyAt >= 0 && !countsSeen[len(tbl.columns)-1] && c.Biased(3, 800, "schema-drop-column") > 0 {
 			// ALTER TABLE ... DROP COLUMN: events still in flight carry one value
 			// more than the table has columns now
 			c.Fault("schema-drop-column")
@@ -379,6 +388,7 @@ func liveBody(c *runner.Ctx) {
 			_, err = writer.InsertRow(context.Background(), u)
 		}
 		desc = append(desc, fmt.Sprintf("%s(%d)", op, id))
+		simrt.Logf("write %s %s -> %v", op, userString(u), err)
 		if err != nil {
 			simrt.Logf("write %s failed: %v", op, err)
 		}
